@@ -38,19 +38,33 @@ var resultRe = regexp.MustCompile(`(?m)^VERIF-RESULT (-?\d+) (.*)$`)
 
 // runNative runs the given runs (all harnesses in pkgDir) in one `go test` invocation.
 func runNative(pkgDirs []string, pkgDir string, runs []replayRun, timeout time.Duration) (map[int]string, string, error) {
+	rf := replayFile{Runs: runs}
+	rdata, _ := json.Marshal(rf)
+	text, err := runNativeTest(pkgDirs, pkgDir, "^TestVerifReplay$", "VERIF_REPLAY", rdata, timeout)
+	res := map[int]string{}
+	for _, m := range resultRe.FindAllStringSubmatch(text, -1) {
+		idx, _ := strconv.Atoi(m[1])
+		res[idx] = strings.TrimSpace(m[2])
+	}
+	return res, text, err
+}
+
+// runNativeTest compiles the harness files of pkgDirs into the real packages (go test -overlay) and runs one
+// generated test of pkgDir; payload is written to a file whose path is passed in the environment variable envName.
+func runNativeTest(pkgDirs []string, pkgDir string, runPattern, envName string, payload []byte, timeout time.Duration) (string, error) {
 	tmp, err := os.MkdirTemp("", "symgo-replay-")
 	if err != nil {
-		return nil, "", err
+		return "", err
 	}
 	defer os.RemoveAll(tmp)
 	harnessRoot := filepath.Join(verifRoot, "harness")
 	overlay := map[string]string{}
-	var harnessNames []string
+	var harnessNames, selftestNames []string
 	for _, pd := range pkgDirs {
 		dir := filepath.Join(harnessRoot, pd)
 		ents, err := os.ReadDir(dir)
 		if err != nil {
-			return nil, "", err
+			return "", err
 		}
 		pkgName := ""
 		for _, e := range ents {
@@ -59,7 +73,7 @@ func runNative(pkgDirs []string, pkgDir string, runs []replayRun, timeout time.D
 			}
 			data, err := os.ReadFile(filepath.Join(dir, e.Name()))
 			if err != nil {
-				return nil, "", err
+				return "", err
 			}
 			if pkgName == "" {
 				pkgName = packageClause(data)
@@ -68,6 +82,9 @@ func runNative(pkgDirs []string, pkgDir string, runs []replayRun, timeout time.D
 			if pd == pkgDir {
 				for _, m := range regexp.MustCompile(`(?m)^func (Harness_\w+)\(\)`).FindAllStringSubmatch(string(data), -1) {
 					harnessNames = append(harnessNames, m[1])
+				}
+				for _, m := range regexp.MustCompile(`(?m)^func (Selftest_\w+)\(a, b, c int64\)`).FindAllStringSubmatch(string(data), -1) {
+					selftestNames = append(selftestNames, m[1])
 				}
 			}
 		}
@@ -78,7 +95,7 @@ func runNative(pkgDirs []string, pkgDir string, runs []replayRun, timeout time.D
 		}
 		rt, err := os.ReadFile(filepath.Join(harnessRoot, "_rt", "rt_native.go.txt"))
 		if err != nil {
-			return nil, "", err
+			return "", err
 		}
 		rtPath := filepath.Join(tmp, strings.ReplaceAll(pd, "/", "_")+"_rt.go")
 		os.WriteFile(rtPath, []byte(strings.Replace(string(rt), "package PKG", "package "+pkgName, 1)), 0o644)
@@ -91,6 +108,12 @@ func runNative(pkgDirs []string, pkgDir string, runs []replayRun, timeout time.D
 				fmt.Fprintf(&sb, "\t\t%q: %s,\n", h, h)
 			}
 			sb.WriteString("\t})\n}\n")
+			sort.Strings(selftestNames)
+			sb.WriteString("\nfunc TestVerifSelftest(t *testing.T) {\n\tverifRunSelftest(map[string]func(a, b, c int64) int64{\n")
+			for _, h := range selftestNames {
+				fmt.Fprintf(&sb, "\t\t%q: func(a, b, c int64) int64 { return int64(%s(a, b, c)) },\n", h, h)
+			}
+			sb.WriteString("\t})\n}\n")
 			tp := filepath.Join(tmp, "replay_test.go")
 			os.WriteFile(tp, []byte(sb.String()), 0o644)
 			overlay[filepath.Join(repoRoot, pd, "zz_verif_replay_test.go")] = tp
@@ -99,28 +122,21 @@ func runNative(pkgDirs []string, pkgDir string, runs []replayRun, timeout time.D
 	ovData, _ := json.Marshal(map[string]interface{}{"Replace": overlay})
 	ovPath := filepath.Join(tmp, "overlay.json")
 	os.WriteFile(ovPath, ovData, 0o644)
-	rf := replayFile{Runs: runs}
-	rdata, _ := json.Marshal(rf)
-	rpath := filepath.Join(tmp, "replay.json")
-	os.WriteFile(rpath, rdata, 0o644)
+	rpath := filepath.Join(tmp, "payload.json")
+	os.WriteFile(rpath, payload, 0o644)
 
 	ctx, cancel := context.WithTimeout(context.Background(), timeout+90*time.Second)
 	defer cancel()
-	cmd := exec.CommandContext(ctx, "go", "test", "-v", "-vet=off", "-count=1", "-overlay", ovPath, "-run", "^TestVerifReplay$",
+	cmd := exec.CommandContext(ctx, "go", "test", "-v", "-vet=off", "-count=1", "-overlay", ovPath, "-run", runPattern,
 		"-timeout", fmt.Sprintf("%ds", int(timeout.Seconds())), "./"+pkgDir)
 	cmd.Dir = repoRoot
-	cmd.Env = append(os.Environ(), "VERIF_REPLAY="+rpath, "GOFLAGS=-mod=mod", "GOPROXY=off", "GOSUMDB=off", "GOTOOLCHAIN=local")
+	cmd.Env = append(os.Environ(), envName+"="+rpath, "GOFLAGS=-mod=mod", "GOPROXY=off", "GOSUMDB=off", "GOTOOLCHAIN=local")
 	out, _ := cmd.CombinedOutput()
 	text := string(out)
-	res := map[int]string{}
-	for _, m := range resultRe.FindAllStringSubmatch(text, -1) {
-		idx, _ := strconv.Atoi(m[1])
-		res[idx] = strings.TrimSpace(m[2])
-	}
 	if strings.Contains(text, "[build failed]") || strings.Contains(text, "[setup failed]") {
-		return res, text, fmt.Errorf("native build failed: %s", tail(text, 800))
+		return text, fmt.Errorf("native build failed: %s", tail(text, 800))
 	}
-	return res, text, nil
+	return text, nil
 }
 
 func tail(s string, n int) string {
